@@ -73,7 +73,7 @@ macro "pq_tac" : tactic => `(tactic| (splits <;> simp_all [PQ]))
     | set x => exact ih s _
     | flow f chk =>
       simp only [runAgInstrs]
-      have := ih (flowCall s f).1 a; have h2 := pq_flowCall s f
+      have := ih (flowCall s f).1 (if f == .initAgentReady && (flowCall s f).2 then { a with asked := true } else a); have h2 := pq_flowCall s f
       exact ⟨this.1.trans h2.1, this.2.trans h2.2⟩
     | suspend ok nx => exact ⟨rfl, rfl⟩
     | subscribe es => exact ih s _
